@@ -116,7 +116,15 @@ func lineInterior(in []byte, off int) bool {
 }
 
 func runC16(c *Ctx) []Violation {
-	w := pickWorld(c, worldOpts{CorpusWeight: 1, GenWeight: 3, Encodings: true})
+	var w *world.World
+	if c.T.Chance("c16.unmatched-trailer-family", 1, 14) {
+		// own scenario family of an open known finding: old fixed-length, header/footer envelopes, a
+		// last line that no envelope declares
+		w = genWorld(c, world.GenOpts{Formats: []string{"fixed-length"}, UnmatchedTrailer: true, Encodings: true})
+		c.Count("world.family.unmatched-trailer", 1)
+	} else {
+		w = pickWorld(c, worldOpts{CorpusWeight: 1, GenWeight: 3, Encodings: true})
+	}
 	env := baseEnv(c)
 	if c.T.Chance("c16.damaged-schema", 1, 6) {
 		// "all inputs of all formats" are read under whatever schema NewSchema accepts: the schema of
@@ -184,6 +192,13 @@ func runC16(c *Ctx) []Violation {
 		return nil
 	}
 	fault, class := drawStreamFault(c, w)
+	if w.Tag("unmatched-trailing-line") == "1" && c.T.Chance("c16.fault-in-the-unmatched-line", 2, 3) {
+		// the fault this family exists for: the failure comes together with (part of) the last line
+		if at := strings.LastIndex(string(w.Input), world.UnmatchedTrailerLine[:4]); at >= 0 {
+			fault = simio.Fault{Kind: simio.FaultPersistent, Off: at + 1 + c.T.Intn("c16.fault-in-the-unmatched-line.off", len(w.Input)-at), WithData: true, ErrKind: fault.ErrKind}
+			class = simio.OffAny
+		}
+	}
 	c.Note("fault: %s (class %s)", fault.String(), simio.OffClassName(class))
 	return c16Case(c, w, env, plan, fault, class)
 }
@@ -263,6 +278,11 @@ func c16Case(c *Ctx, w *world.World, env run.Env, plan simio.Plan, fault simio.F
 			}
 		}
 		switch {
+		case w.Format == "fixed-length" && w.Tag("unmatched-trailing-line") == "1" && clause == "C16.eof-not-fatal" &&
+			st.ErrAtOffset >= strings.LastIndex(string(w.Input), world.UnmatchedTrailerLine[:4]) && c.FindingOpen("fixedlength-headerfooter-unmatched-line-hides-reader-error"):
+			// the reader stops at a line that matches no header and never looks at what the input
+			// reader returned together with it
+			return "fixedlength-headerfooter-unmatched-line-hides-reader-error"
 		case w.Format == "csv" && csvSite && c.FindingOpen("csv-io-error-continuable"):
 			return "csv-io-error-continuable"
 		case w.Format == "fixed-length" && w.Tag("envelope") == "header_footer" && interior && clause == "C16.eof-not-fatal" && c.FindingOpen("fixedlength-headerfooter-io-error-becomes-eof"):
